@@ -147,48 +147,8 @@ func r08d(c *an.Ctx) {
 			continue
 		}
 		c.Subject()
-		sorts := an.CallsNamed(fn, "sort.Ints")
-		ok := false
-		if len(sorts) == 1 {
-			// sorted slice is what the result is built from; the sort dominates every return and follows the key collection loop
-			ok = true
-			for _, r := range an.Returns(fn) {
-				if !an.Dominates(sorts[0], r) {
-					ok = false
-				}
-				res := false
-				for _, l := range an.BackSlice(an.RetVal(r, 0), an.SliceOpts{}) {
-					if l.Val == sorts[0].Common().Args[0] {
-						res = true
-					}
-				}
-				// the returned slice is filled from the sorted one by index (order preserving)
-				_ = res
-			}
-			// the fill of the result happens after the sort: any IndexAddr store into a []HookWeight after sort reads the sorted slice in index order
-			fillOK := false
-			an.Instrs(fn, func(in ssa.Instruction) {
-				st, isSt := in.(*ssa.Store)
-				if !isSt {
-					return
-				}
-				ia, isIA := st.Addr.(*ssa.IndexAddr)
-				if !isIA || !strings.HasSuffix(ia.X.Type().String(), "callable.HookWeight") || !an.Dominates(sorts[0], st) {
-					return
-				}
-				// value read from sorted[idx] with the same index
-				for _, l := range an.BackSlice(st.Val, an.SliceOpts{}) {
-					_ = l
-				}
-				if ld, isLd := an.Strip(st.Val).(*ssa.UnOp); isLd {
-					if src, isSrc := ld.X.(*ssa.IndexAddr); isSrc && src.Index == ia.Index && src.X == sorts[0].Common().Args[0] {
-						fillOK = true
-					}
-				}
-			})
-			ok = ok && fillOK
-		}
-		c.Ob("(core/workflow/callable."+strings.Replace(name, ".", ").", 1)+"|sorted", fn.Pos(), ok, "GetWeights must return the weights in ascending order: sort.Ints on the collected keys, then an index-by-index copy")
+		ok := returnsAscending(c, fn, 0)
+		c.Ob("(core/workflow/callable."+strings.Replace(name, ".", ").", 1)+"|sorted", fn.Pos(), ok, "GetWeights must return the weights in ascending order: an ascending sort of the collected keys dominates every return, and what is returned is the sorted slice or an index-by-index copy of it (directly or in a same-package helper)")
 	}
 	if fn := c.MustFn("core/environment", "Environment.handleHooks"); fn != nil {
 		c.Subject()
@@ -503,4 +463,132 @@ func pendingResetRule(c *an.Ctx, rule string) {
 		c.Ob(fmt.Sprintf("(*core/environment.Environment).handleHooks|reset-pending-level%d", depth), mu.Pos(), !reach && tests > 0,
 			"an entry of the pending-await structure is replaced by an empty container on a path that did not establish that this very entry is absent or empty (%d matching tests): calls already parked there under another weight are forgotten, never awaited and never cancelled", tests)
 	})
+}
+
+// ascendingSortOf: call sorts a slice ascending in place; returns the slice operand.
+func ascendingSortOf(call *ssa.Call) (ssa.Value, bool) {
+	n := an.CalleeName(&call.Call)
+	args := call.Call.Args
+	switch {
+	case n == "sort.Ints" || n == "sort.Strings" || n == "sort.Float64s":
+		return args[0], true
+	case strings.HasPrefix(n, "slices.Sort") && !strings.Contains(n, "Func"):
+		return args[0], true
+	case n == "sort.Slice" || n == "sort.SliceStable":
+		// less(i, j) must be s[i] < s[j] on the very slice being sorted
+		var sl ssa.Value = args[0]
+		if mi, ok := sl.(*ssa.MakeInterface); ok {
+			sl = mi.X
+		}
+		less := an.ClosureFn(args[1])
+		if less == nil || len(less.Params) != 2 {
+			return nil, false
+		}
+		for _, r := range an.Returns(less) {
+			bo, ok := an.RetVal(r, 0).(*ssa.BinOp)
+			if !ok || bo.Op != token.LSS {
+				return nil, false
+			}
+			idxOf := func(v ssa.Value) ssa.Value {
+				v = an.Strip(v)
+				if ld, ok := v.(*ssa.UnOp); ok && ld.Op == token.MUL {
+					if ia, ok := ld.X.(*ssa.IndexAddr); ok {
+						return ia.Index
+					}
+				}
+				return nil
+			}
+			if idxOf(bo.X) != ssa.Value(less.Params[0]) || idxOf(bo.Y) != ssa.Value(less.Params[1]) {
+				return nil, false
+			}
+		}
+		return sl, true
+	}
+	return nil, false
+}
+
+// returnsAscending: every return of fn yields a slice that was sorted ascending (see the rule text).
+func returnsAscending(c *an.Ctx, fn *ssa.Function, depth int) bool {
+	if fn == nil || fn.Blocks == nil || depth > 2 {
+		return false
+	}
+	c.Mark(fn)
+	rets := an.Returns(fn)
+	if len(rets) == 0 {
+		return false
+	}
+	// tail call of a same-package function that returns an ascending slice
+	allTail := true
+	for _, r := range rets {
+		call, ok := an.Strip(an.RetVal(r, 0)).(*ssa.Call)
+		if !ok || call.Call.StaticCallee() == nil || call.Call.StaticCallee().Pkg != fn.Pkg && call.Call.StaticCallee().Origin() == nil {
+			allTail = false
+			break
+		}
+		cal := call.Call.StaticCallee()
+		if cal.Pkg == nil && cal.Origin() != nil && cal.Origin().Pkg != fn.Pkg {
+			allTail = false
+			break
+		}
+		if !returnsAscending(c, cal, depth+1) {
+			allTail = false
+			break
+		}
+	}
+	if allTail {
+		return true
+	}
+	var sortCall *ssa.Call
+	var sorted ssa.Value
+	an.Instrs(fn, func(in ssa.Instruction) {
+		if call, ok := in.(*ssa.Call); ok {
+			if sl, is := ascendingSortOf(call); is {
+				sortCall, sorted = call, sl
+			}
+		}
+	})
+	if sortCall == nil {
+		return false
+	}
+	for _, r := range rets {
+		if !an.Dominates(sortCall, r) {
+			return false
+		}
+		rv := an.Strip(an.RetVal(r, 0))
+		if an.SameVar(rv, sorted) || an.DerivesFrom(rv, an.Strip(sorted)) || sameSliceCell(rv, sorted) {
+			continue
+		}
+		// index-by-index copy of the sorted slice made after the sort
+		fillOK := false
+		an.Instrs(fn, func(in ssa.Instruction) {
+			st, isSt := in.(*ssa.Store)
+			if !isSt {
+				return
+			}
+			ia, isIA := st.Addr.(*ssa.IndexAddr)
+			if !isIA || !an.Dominates(sortCall, st) || !(an.SameVar(ia.X, rv) || an.DerivesFrom(rv, ia.X)) {
+				return
+			}
+			var val ssa.Value = st.Val
+			if cv, isConv := val.(*ssa.Convert); isConv {
+				val = cv.X
+			}
+			if ld, isLd := an.Strip(val).(*ssa.UnOp); isLd {
+				if src, isSrc := ld.X.(*ssa.IndexAddr); isSrc && src.Index == ia.Index && (src.X == sorted || an.SameVar(src.X, sorted)) {
+					fillOK = true
+				}
+			}
+		})
+		if !fillOK {
+			return false
+		}
+	}
+	return true
+}
+
+// sameSliceCell: both values are loads of the same local cell (a slice variable captured by the less closure).
+func sameSliceCell(a, b ssa.Value) bool {
+	ua, okA := an.Strip(a).(*ssa.UnOp)
+	ub, okB := an.Strip(b).(*ssa.UnOp)
+	return okA && okB && ua.X == ub.X
 }
